@@ -41,10 +41,7 @@ def main(argv):
             print('replaying finding: %s' % json.dumps(rec, indent=1, sort_keys=True))
         except OSError as e:
             print('cannot read %s: %s' % (explain, e))
-    rc = run_check(pid, mod.TITLE, lambda ck: mod.run(ck, tier), tier)
-    if rc == 0 and tier == 'thorough' and hasattr(mod, 'thorough_extra'):
-        rc = mod.thorough_extra(pid)
-    return rc
+    return run_check(pid, mod.TITLE, lambda ck: mod.run(ck, tier), tier)
 
 
 if __name__ == '__main__':
